@@ -165,6 +165,10 @@ def three_targets(rep, rng, tier):
         out = r["out"]
         gosum = r["summary"].get("go/query.sql.go", {})
         gstructs = {st["name"]: st for f in ("go/models.go", "go/query.sql.go") for st in r["summary"].get(f, {}).get("structs", [])}
+        gnames = [st["name"] for f in ("go/models.go", "go/query.sql.go") for st in r["summary"].get(f, {}).get("structs", [])]
+        # two tables whose names collapse to one struct / class name (orders, "order"): the package does not even
+        # compile (C01 duplicate_top_level_identifier) and "the" struct a method returns is ambiguous
+        ambiguous = {n for n in gnames if gnames.count(n) > 1}
         # Python must at least be syntactically valid
         try:
             compile(out["py/query.py"], "query.py", "exec")
@@ -262,7 +266,7 @@ def three_targets(rep, rng, tier):
                 kres = kclasses.get(kret)
                 pret = re.sub(r".*\[(?:Optional\[)?([\w.]+)\]?\]$", r"\1", p["ret"]).split(".")[-1]
                 pres = pclasses.get(pret)
-                if kres is not None and pres is not None and rt in gstructs:
+                if kres is not None and pres is not None and rt in gstructs and rt not in ambiguous:
                     if not (len(gres) == len(kres) == len(pres)):
                         rep.violation("result of %s has %d/%d/%d columns in Go/Kotlin/Python" % (m["name"], len(gres), len(kres), len(pres)), replay,
                                       klass=None)
